@@ -15,7 +15,7 @@ contract(
     'hl7apy.parser:_get_segment_reference',
     sig={'segment_name': 'str', 'parents_ref': 'list[tuple[any,RefStruct]]'},
     returns='tuple[RefStruct?,list[tuple[any,RefStruct]]]',
-    requires=['len(parents_ref) >= 1'],
+    requires=['len(parents_ref) >= 1', 'ref_arity(%s) >= 2' % TOP],
     ensures=[
         ('same_stack_object', 'result[1] is parents_ref'),
         ('direct_child_wins', 'implies(old(seg_idx(%s, segment_name)) >= 0, '
